@@ -255,6 +255,11 @@ impl<'a, G: AffineRepr> Iterator for AggregatedGensIter<'a, G> {
     type Item = &'a G;
 
     fn next(&mut self) -> Option<Self::Item> {
+        if self.n == 0 {
+            // A zero-width view is empty for every number of parties; without this the
+            // iterator stepped to the next party and yielded its first generator.
+            return None;
+        }
         if self.gen_idx >= self.n {
             self.gen_idx = 0;
             self.party_idx += 1;
